@@ -1,4 +1,7 @@
 import DadiVerif.Lemmas.ModelDSL
+import DadiVerif.Lemmas.ModelPerm
+import DadiVerif.Lemmas.ModelUnits
+import DadiVerif.Lemmas.ModelUnitsRat
 import DadiVerif.Generated.Models
 import DadiVerif.Model.ModelPairs
 /-!
@@ -20,6 +23,16 @@ on every run — and about the definitions of Model/ModelDSL.lean that the drive
   the source of which starts with `if T - initial_t == 0: return phi` are the identity at zero duration).
 * `C15_swap_syntactic`: for the 33 symmetric two-population models, the model at the permuted parameter vector is the
   relabelled model, in every interpretation in which the primitives are equivariant under relabelling (`SwapLawful`).
+* `C15_perm_equivariance` (round 4): the same for **any permutation of the population labels**, two- and three-population
+  models (67 entries of `Pairs.permSymmetric`: every model of the table that has a symmetric partner, with every
+  non-trivial permutation for which it has one), in every `PermLawful` interpretation (the laws are the finite list
+  `permRules`/`permPairs`/`permFin` of Model/ModelPerm.lean).
+* `C15_units` (round 4): **units**.  Every keyword of every primitive call, in every branch of every model, receives an
+  expression of the unit its keyword expects (`nu*` Size, `T` Time, `m<ij>` Rate, `gamma*` Sel, `h*`/`f*`/`beta`
+  dimensionless, …) under the reference-size convention, and strictly except at the listed reference-size sites
+  (`C15_units_reference_sites`); `C15_units_homogeneous`, `C15_units_call_scale`: a well-united expression / call is
+  homogeneous of the degree of its unit under every `UnitAction` (in particular the C03 rescaling over ℚ,
+  `C15_units_rescaling_is_action`); `C15_program_scale`, `C15_program_scale_library`: the program-level form of C03.
 
 **Not proved here (numerical, harness L3)**: that the real primitives form such an interpretation up to round-off
 (zero-duration identity is exact; equivariance of `two_pops` under transposition holds only up to the operator-splitting
@@ -182,6 +195,289 @@ theorem C15_swap_syntactic (p : Pairs.SwapPair) (hp : p ∈ Pairs.symmetric)
       sem I ρ table sigs p.name p.args
         = (sem (I.withFinishArgs nsSwap) ρ table sigs p.name (m.paramNames.map .param)).map τOut :=
   swapOK_sound hI hS ρ (List.all_eq_true.mp C15Facts.swap_symmetric p hp)
+
+
+/-! ## Round 4 — label-swap equivariance for any permutation of the population labels (two and three populations) -/
+namespace C15Facts
+theorem perm_symmetric2 :
+    (Pairs.permSymmetric.filter (fun p => p.perm.length == 2)).all
+      (fun p => permOK table sigs permRules permPairs permFin p.name p.perm p.args) = true := by decide +kernel
+theorem perm_symmetric3 :
+    (Pairs.permSymmetric.filter (fun p => p.perm.length != 2)).all
+      (fun p => permOK table sigs permRules permPairs permFin p.name p.perm p.args) = true := by decide +kernel
+theorem perm_symmetric :
+    Pairs.permSymmetric.all (fun p => permOK table sigs permRules permPairs permFin p.name p.perm p.args) = true := by
+  rw [List.all_eq_true]
+  intro p hp
+  by_cases h : (p.perm.length == 2) = true
+  · exact List.all_eq_true.mp perm_symmetric2 p (List.mem_filter.mpr ⟨hp, h⟩)
+  · exact List.all_eq_true.mp perm_symmetric3 p (List.mem_filter.mpr ⟨hp, by simpa using h⟩)
+end C15Facts
+
+/-- **label permutation**: for every entry `(model, π, permuted parameter vector)` of `Pairs.permSymmetric` — two- and
+    three-population models, any permutation `π` of the population labels under which the model has a symmetric partner —
+    the model at the permuted parameter vector is the model with its populations relabelled by `π` (evaluated at the
+    relabelled sample sizes), in every lawful interpretation that is **permutation-lawful**: its primitives satisfy the
+    finite list of laws `permRules` (integrators commute with a permutation of the axes and of their per-population
+    keywords; `phi_1D_to_2D` is symmetric; `phi_2D_to_3D_split_2` is symmetric in the daughters; admixture `1 into 2` is
+    `2 into 1` of the transposed density), `permPairs` (a population split into three at once is symmetric under S₃) and
+    `permFin` (sampling commutes with relabelling) -/
+theorem C15_perm_equivariance (p : Pairs.PermPair) (hp : p ∈ Pairs.permSymmetric)
+    (I : Interp) (hI : Lawful I (integrators sigs)) (τ : List Nat → I.Φ → I.Φ) (τOut : List Nat → I.Out → I.Out)
+    (nsPerm : List Nat → List (Name × Val I.S) → List (Name × Val I.S))
+    (hP : PermLawful I permRules permPairs permFin τ τOut nsPerm) (ρ : Name → I.S) :
+    ∃ m, findModel table p.name = some m ∧
+      sem I ρ table sigs p.name p.args
+        = (sem (I.withFinishArgs (nsPerm p.perm)) ρ table sigs p.name (m.paramNames.map .param)).map (τOut p.perm) :=
+  permOK_sound hI hP ρ (List.all_eq_true.mp C15Facts.perm_symmetric p hp)
+
+/-- what the table contains: 33 two-population entries (the transposition), 34 three-population entries over 17 models;
+    the three-population models and the permutations each is symmetric under -/
+theorem C15_perm_table :
+    (Pairs.permSymmetric.filter (fun p => p.perm.length == 2)).length = 33
+    ∧ (Pairs.permSymmetric.filter (fun p => p.perm.length == 3)).length = 34
+    ∧ Pairs.permSymmetric.all (fun p => p.perm.length == 2 || p.perm.length == 3) = true
+    ∧ (Pairs.permSymmetric.filter (fun p => p.perm.length == 3)).map (fun p => (p.name, p.perm))
+      = [(nm! "Demographics3D.out_of_africa", [0, 2, 1]),
+         (nm! "portik_models_3d.split_nomig", [0, 2, 1]), (nm! "portik_models_3d.split_symmig_all", [0, 2, 1]),
+         (nm! "portik_models_3d.ancmig_adj_3", [0, 2, 1]), (nm! "portik_models_3d.ancmig_adj_2", [0, 2, 1]),
+         (nm! "portik_models_3d.sim_split_no_mig", [0, 2, 1]), (nm! "portik_models_3d.sim_split_no_mig", [1, 0, 2]),
+         (nm! "portik_models_3d.sim_split_no_mig", [1, 2, 0]), (nm! "portik_models_3d.sim_split_no_mig", [2, 0, 1]),
+         (nm! "portik_models_3d.sim_split_no_mig", [2, 1, 0]),
+         (nm! "portik_models_3d.sim_split_no_mig_size", [0, 2, 1]), (nm! "portik_models_3d.sim_split_no_mig_size", [1, 0, 2]),
+         (nm! "portik_models_3d.sim_split_no_mig_size", [1, 2, 0]), (nm! "portik_models_3d.sim_split_no_mig_size", [2, 0, 1]),
+         (nm! "portik_models_3d.sim_split_no_mig_size", [2, 1, 0]),
+         (nm! "portik_models_3d.sim_split_sym_mig_all", [0, 2, 1]), (nm! "portik_models_3d.sim_split_sym_mig_all", [1, 0, 2]),
+         (nm! "portik_models_3d.sim_split_sym_mig_all", [1, 2, 0]), (nm! "portik_models_3d.sim_split_sym_mig_all", [2, 0, 1]),
+         (nm! "portik_models_3d.sim_split_sym_mig_all", [2, 1, 0]),
+         (nm! "portik_models_3d.sim_split_sym_mig_adjacent", [2, 1, 0]),
+         (nm! "portik_models_3d.sim_split_refugia_sym_mig_all", [0, 2, 1]), (nm! "portik_models_3d.sim_split_refugia_sym_mig_all", [1, 0, 2]),
+         (nm! "portik_models_3d.sim_split_refugia_sym_mig_all", [1, 2, 0]), (nm! "portik_models_3d.sim_split_refugia_sym_mig_all", [2, 0, 1]),
+         (nm! "portik_models_3d.sim_split_refugia_sym_mig_all", [2, 1, 0]),
+         (nm! "portik_models_3d.sim_split_refugia_sym_mig_adjacent", [2, 1, 0]),
+         (nm! "portik_models_3d.split_nomig_size", [0, 2, 1]), (nm! "portik_models_3d.ancmig_2_size", [0, 2, 1]),
+         (nm! "portik_models_3d.sim_split_refugia_sym_mig_adjacent_size", [2, 1, 0]),
+         (nm! "portik_models_3d.sim_split_sym_mig_adjacent_var", [1, 0, 2]),
+         (nm! "portik_models_3d.sim_split_uni_mig_adjacent_var", [1, 0, 2]),
+         (nm! "portik_models_3d.sim_split_refugia_sym_mig_adjacent_var", [1, 0, 2]),
+         (nm! "portik_models_3d.sim_split_refugia_uni_mig_adjacent_var", [1, 0, 2])] := by
+  decide +kernel
+
+/-- the relabelling test is not vacuous: `split_nomig` is *not* symmetric under exchanging populations 1 and 2 (population 1
+    split off first), and `ancmig_2_size` with `nu3a` in place of `nu3b` in the parameter vector is not the relabelled model -/
+example :
+    permOK table sigs permRules permPairs permFin (nm! "portik_models_3d.split_nomig") [1, 0, 2]
+        [.param (nm! "nu2"), .param (nm! "nuA"), .param (nm! "nu1"), .param (nm! "nu3"), .param (nm! "T1"), .param (nm! "T2")] = false
+    ∧ permOK table sigs permRules permPairs permFin (nm! "portik_models_3d.split_nomig") [0, 2, 1]
+        [.param (nm! "nu1"), .param (nm! "nuA"), .param (nm! "nu2"), .param (nm! "nu3"), .param (nm! "T1"), .param (nm! "T2")] = false := by
+  decide +kernel
+
+/-- a permutation-lawful (and lawful) interpretation exists -/
+@[reducible] def unitInterp : Interp where
+  S := Unit
+  Φ := Unit
+  Out := Unit
+  lit _ _ := ()
+  sym _ := ()
+  neg _ := ()
+  add _ _ := ()
+  sub _ _ := ()
+  mul _ _ := ()
+  div _ _ := ()
+  pow _ _ := ()
+  call1 _ _ := ()
+  cmp _ _ _ := true
+  start _ _ := some ()
+  step _ _ _ := some ()
+  finish _ _ _ := some ()
+
+example : PermLawful unitInterp permRules permPairs permFin (fun _ x => x) (fun _ x => x) (fun _ a => a) :=
+  ⟨fun _ _ _ _ _ _ => rfl, fun _ _ _ _ _ _ => rfl, fun _ _ _ _ _ => rfl, fun _ _ _ _ _ _ => rfl⟩
+
+/-! ## Round 4 — units -/
+namespace C15Facts
+theorem kw_classified : sigs.all (fun s => s.params.all (fun p => (kwExpected p.1).isSome)) = true := by decide +kernel
+theorem table_units : table.all (modelUnitsOK table sigs true) = true := by decide +kernel
+theorem ref_site_models :
+    (table.filter (fun m => !(refSites table sigs m).isEmpty)).map (·.name)
+      = [nm! "Demographics1D.growth", nm! "Demographics2D.bottlegrowth_2d", nm! "Demographics2D.bottlegrowth_split",
+         nm! "Demographics2D.bottlegrowth_split_mig", nm! "Demographics2D.IM", nm! "portik_models_2d.vic_no_mig",
+         nm! "portik_models_2d.vic_anc_sym_mig", nm! "portik_models_2d.vic_anc_asym_mig",
+         nm! "portik_models_2d.vic_sec_contact_sym_mig", nm! "portik_models_2d.vic_sec_contact_asym_mig",
+         nm! "portik_models_2d.founder_nomig", nm! "portik_models_2d.founder_sym", nm! "portik_models_2d.founder_asym",
+         nm! "portik_models_2d.vic_no_mig_admix_early", nm! "portik_models_2d.vic_no_mig_admix_late",
+         nm! "portik_models_2d.vic_two_epoch_admix", nm! "portik_models_2d.founder_nomig_admix_early",
+         nm! "portik_models_2d.founder_nomig_admix_late", nm! "portik_models_2d.founder_nomig_admix_two_epoch",
+         nm! "DemogSelModels.IM_sel", nm! "DemogSelModels.IM_sel_single_gamma", nm! "DemogSelModels.bottlegrowth_2d_sel",
+         nm! "DemogSelModels.bottlegrowth_2d_sel_single_gamma", nm! "DemogSelModels.bottlegrowth_split_sel",
+         nm! "DemogSelModels.bottlegrowth_split_sel_single_gamma", nm! "DemogSelModels.bottlegrowth_split_mig_sel",
+         nm! "DemogSelModels.bottlegrowth_split_mig_sel_single_gamma", nm! "DemogSelModels.growth_sel"]
+    ∧ dedup (table.flatMap (refSites table sigs))
+      = [(nm! "Integration.one_pop", nm! "nu"), (nm! "Integration.two_pops", nm! "nu1"),
+         (nm! "Integration.two_pops", nm! "nu2")] := by
+  decide +kernel
+theorem ref_inside_models :
+    (table.filter (fun m => !modelRefExplicitOK table sigs m)).map (·.name)
+      = [nm! "Demographics1D.growth", nm! "Demographics2D.IM", nm! "portik_models_2d.founder_nomig",
+         nm! "portik_models_2d.founder_sym", nm! "portik_models_2d.founder_asym",
+         nm! "portik_models_2d.founder_nomig_admix_early", nm! "portik_models_2d.founder_nomig_admix_late",
+         nm! "portik_models_2d.founder_nomig_admix_two_epoch", nm! "DemogSelModels.IM_sel",
+         nm! "DemogSelModels.IM_sel_single_gamma", nm! "DemogSelModels.growth_sel"] := by
+  decide +kernel
+end C15Facts
+
+/-- every keyword of every primitive signature read from the source has an expected unit (a new keyword must be classified) -/
+theorem C15_units_keywords_classified :
+    sigs.all (fun s => s.params.all (fun p => (kwExpected p.1).isSome)) = true := C15Facts.kw_classified
+
+/-- **units**: in every branch of every model of the table, every keyword of every PhiManip / Integration / from_phi call
+    receives an expression of the unit the keyword expects — `nu*`: Size, `T`, `initial_t`: Time, `m<ij>`: Rate, `gamma*`: Sel,
+    `theta0`: Theta, `h*`, `beta`, `f*`: dimensionless, `Fs`/`ploidys`: tuples of dimensionless numbers, densities / grids /
+    flags / `ns`: not a number and independent of the parameters — and every `if` compares quantities of one unit; parameters
+    are classified by name (`nu*` Size, `T*` Time, `m*` Rate, `gamma*` Sel, `s`, `F`, `f*`, `p*` dimensionless), products and
+    quotients add and subtract exponents, sums need equal units, `**`, `exp`, `log` need dimensionless operands, the
+    literal `0` has every unit.  Stated under the **reference-size convention** (a dimensionless quantity in a Size or
+    Theta position is that multiple of the reference size / reference θ); the strict form is `C15_units_reference_sites`.
+    A keyword that receives a parameter of another family (`T=nu1`, `m12=gamma1`) falsifies this statement. -/
+theorem C15_units : table.all (modelUnitsOK table sigs true) = true := C15Facts.table_units
+
+/-- the check is not vacuous: it refuses `T=nu1`, `m12=gamma1`, `nu1=T`, `gamma=m`, an exponent with a unit (`x**(1/T)`),
+    a sum of a size and a time; it accepts `nu=nuEu0*(nuEu/nuEu0)**(t/TEuAs)` (Size), `T=Ts-T`, `nu1=1-s` (reference-size
+    convention only) -/
+example :
+    kwOK true (nm! "T") (.param (nm! "nu1")) = false ∧ kwOK true (nm! "m12") (.param (nm! "gamma1")) = false
+    ∧ kwOK true (nm! "nu1") (.param (nm! "T")) = false ∧ kwOK true (nm! "gamma") (.param (nm! "m")) = false
+    ∧ kwOK true (nm! "nu1") (.lam (.mul (.param (nm! "s")) (.pow (.div (.param (nm! "nu1")) (.param (nm! "s")))
+          (.div (.lit 1 1) (.param (nm! "T")))))) = false
+    ∧ kwOK true (nm! "T") (.add (.param (nm! "nu1")) (.param (nm! "T"))) = false
+    ∧ kwOK false (nm! "nu2") (.lam (.mul (.param (nm! "nuEu0")) (.pow (.div (.param (nm! "nuEu")) (.param (nm! "nuEu0")))
+          (.div .tvar (.param (nm! "TEuAs")))))) = true
+    ∧ kwOK false (nm! "T") (.sub (.param (nm! "Ts")) (.param (nm! "T"))) = true
+    ∧ kwOK true (nm! "nu1") (.sub (.lit 1 1) (.param (nm! "s"))) = true
+    ∧ kwOK false (nm! "nu1") (.sub (.lit 1 1) (.param (nm! "s"))) = false := by
+  decide +kernel
+
+/-- **where a literal stands for the reference size** (strict units).  Apart from the two defaults every library call
+    inherits — `theta0 = 1` (the reference θ) in every integrator and `nu = 1` (the ancestral size) in `PhiManip.phi_1D` — a
+    dimensionless quantity sits in a Size position in exactly these 28 models, and only at `one_pop(nu=…)`,
+    `two_pops(nu1=…, nu2=…)`: the literal sizes `1` of the `bottlegrowth_split*` family and of `IM_sel` (`nuPre = 1`), the
+    fractions `s`, `1-s` of the Portik `vic_*`/`founder_*` models and of `IM`, and `exp(log(nu)·t/T)` in `growth`.
+    Everywhere else the strict check agrees with `C15_units`. -/
+theorem C15_units_reference_sites :
+    (table.filter (fun m => !(refSites table sigs m).isEmpty)).map (·.name)
+      = [nm! "Demographics1D.growth", nm! "Demographics2D.bottlegrowth_2d", nm! "Demographics2D.bottlegrowth_split",
+         nm! "Demographics2D.bottlegrowth_split_mig", nm! "Demographics2D.IM", nm! "portik_models_2d.vic_no_mig",
+         nm! "portik_models_2d.vic_anc_sym_mig", nm! "portik_models_2d.vic_anc_asym_mig",
+         nm! "portik_models_2d.vic_sec_contact_sym_mig", nm! "portik_models_2d.vic_sec_contact_asym_mig",
+         nm! "portik_models_2d.founder_nomig", nm! "portik_models_2d.founder_sym", nm! "portik_models_2d.founder_asym",
+         nm! "portik_models_2d.vic_no_mig_admix_early", nm! "portik_models_2d.vic_no_mig_admix_late",
+         nm! "portik_models_2d.vic_two_epoch_admix", nm! "portik_models_2d.founder_nomig_admix_early",
+         nm! "portik_models_2d.founder_nomig_admix_late", nm! "portik_models_2d.founder_nomig_admix_two_epoch",
+         nm! "DemogSelModels.IM_sel", nm! "DemogSelModels.IM_sel_single_gamma", nm! "DemogSelModels.bottlegrowth_2d_sel",
+         nm! "DemogSelModels.bottlegrowth_2d_sel_single_gamma", nm! "DemogSelModels.bottlegrowth_split_sel",
+         nm! "DemogSelModels.bottlegrowth_split_sel_single_gamma", nm! "DemogSelModels.bottlegrowth_split_mig_sel",
+         nm! "DemogSelModels.bottlegrowth_split_mig_sel_single_gamma", nm! "DemogSelModels.growth_sel"]
+    ∧ dedup (table.flatMap (refSites table sigs))
+      = [(nm! "Integration.one_pop", nm! "nu"), (nm! "Integration.two_pops", nm! "nu1"),
+         (nm! "Integration.two_pops", nm! "nu2")] :=
+  C15Facts.ref_site_models
+
+/-- **homogeneity** (semantic content of the unit system): in every interpretation with an action `A.sc` of the unit group
+    on its scalars (`UnitAction`: compatible with `+ - * /`, fixing the literal 0), an expression of unit `ut` evaluated at the
+    rescaled parameters — every classified parameter `n` replaced by `sc (unit of n) (ρ n)`, the time variable by
+    `sc Time τ` — is `sc ut` of its value (`Hom`; for the unit-polymorphic `poly`: `sc k` of its value for every `k`).
+    `r = false`: strict units; `r = true`: the reference-size convention (sizes and θ are not rescaled). -/
+theorem C15_units_homogeneous {I : Interp} (A : UnitAction I) (r tv : Bool) (ρ ρ' : Name → I.S)
+    (hρ : ∀ n u, paramUnit n = some u → ρ' n = A.sc (u.ref r) (ρ n)) (τ τ' : I.S) (hτ : tv = true → τ' = A.sc U.Time τ)
+    (e : Expr) (ut : UT) (h : unitOf r tv e = some ut) :
+    Hom A ut (evalS I ρ' τ' e) (evalS I ρ τ e) :=
+  evalS_hom A hρ hτ e ut h
+
+/-- …for a whole call: when every keyword of a call is well-united, the evaluated arguments at the rescaled parameters are
+    the arguments rescaled keyword by keyword (`ArgsHom`: a number by the unit its keyword expects, a size function
+    `f' (sc Time τ) = sc Size (f τ)`, everything that is not a number unchanged) -/
+theorem C15_units_call_scale {I : Interp} (A : UnitAction I) (r : Bool) (ρ ρ' : Name → I.S)
+    (hρ : ∀ n u, paramUnit n = some u → ρ' n = A.sc (u.ref r) (ρ n)) (c : Call) (h : callOK r c = true) :
+    ArgsHom A r (evalArgs I ρ' c.args) (evalArgs I ρ c.args) :=
+  evalArgs_hom A hρ c.args h
+
+/-- the rescaling interpretation over ℚ is such an action: for positive factors `(cS, cT, cR, cG, cθ)`,
+    `sc u x = cS^u.size · cT^u.time · cR^u.rate · cG^u.sel · cθ^u.theta · x`; the rescaling of property C03 (sizes and times
+    `× c`, rates, selection and θ0 `÷ c`) is `(c, c, 1/c, 1/c, 1/c)`, for which `sc u x = c ^ deg u · x` -/
+theorem C15_units_rescaling_is_action (c : ℚ) (hc : 0 < c) (Φ Out : Type) (start step finish pow call1) :
+    ∃ A : UnitAction (ratInterp Φ Out start step finish pow call1), ∀ u x, A.sc u x = c ^ u.deg * x :=
+  ⟨ratAction Φ Out start step finish pow call1 (c03 c hc), fun u x => by
+    show pw (c03 c hc) u * x = c ^ u.deg * x; rw [pw_c03]⟩
+
+/-- concrete instance: the size function of `out_of_africa`, `nuEu0·(nuEu/nuEu0)^(t/TEuAs)`, has unit Size (strictly), so with
+    all sizes and times doubled and the time argument doubled its value doubles — whatever `**` is -/
+example (pow : ℚ → ℚ → ℚ) (ρ : Name → ℚ) (τ : ℚ) :
+    let I := ratInterp Unit Unit (fun _ _ => some ()) (fun _ _ _ => some ()) (fun _ _ _ => some ()) pow (fun _ x => x)
+    let e : Expr := .mul (.param (nm! "nuEu0")) (.pow (.div (.param (nm! "nuEu")) (.param (nm! "nuEu0"))) (.div .tvar (.param (nm! "TEuAs"))))
+    evalS I (fun n => match paramUnit n with | some u => (2 : ℚ) ^ u.deg * ρ n | none => ρ n) (2 * τ) e = 2 * evalS I ρ τ e := by
+  intro I e
+  obtain ⟨A, hA⟩ := C15_units_rescaling_is_action 2 (by norm_num) Unit Unit (fun _ _ => some ()) (fun _ _ _ => some ())
+    (fun _ _ _ => some ()) pow (fun _ x => x)
+  have h := C15_units_homogeneous A false true ρ (fun n => match paramUnit n with | some u => (2 : ℚ) ^ u.deg * ρ n | none => ρ n)
+    (fun n u hu => by simp only [hu]; exact (hA u (ρ n)).symm) τ (2 * τ) (fun _ => by rw [hA]; rfl) e (.u U.Size) (by decide +kernel)
+  have h' : evalS I _ (2 * τ) e = A.sc U.Size (evalS I ρ τ e) := h
+  rw [h', hA]; rfl
+
+/-- **program-level scale invariance (C03 at the level of a model program)**: in every interpretation whose primitives are
+    invariant under the rescaling of their keywords by the units the keywords expect (`PrimScaleLawful` — for the real
+    kernels and the C03 rescaling these are `C03_integrate_scale_const/_fn`, `C03_inject_scale`; the φ-manipulations take
+    no dimensional argument), a trace that passes the units check means the same at the rescaled parameters: every
+    primitive call receives rescaled arguments, and every `if` takes the same branch -/
+theorem C15_program_scale {I : Interp} (A : UnitAction I) (r : Bool) (hP : PrimScaleLawful I A r) (ρ ρ' : Name → I.S)
+    (hρ : ∀ n u, paramUnit n = some u → ρ' n = A.sc (u.ref r) (ρ n)) (t : Tr) (h : unitsTr r t = true) :
+    runTr I ρ' t = runTr I ρ t :=
+  runTr_scale A hP hρ t h
+
+/-- the 11 models in which the reference size sits *inside* a size function (`s·(nu/s)^(t/T)` with `s` a fraction of the
+    reference size, `exp(log(nu)·t/T)`), so that making it explicit at keyword level does not give a strictly well-united
+    program; for the other 93 models it does -/
+theorem C15_program_scale_exceptions :
+    (table.filter (fun m => !modelRefExplicitOK table sigs m)).map (·.name)
+      = [nm! "Demographics1D.growth", nm! "Demographics2D.IM", nm! "portik_models_2d.founder_nomig",
+         nm! "portik_models_2d.founder_sym", nm! "portik_models_2d.founder_asym",
+         nm! "portik_models_2d.founder_nomig_admix_early", nm! "portik_models_2d.founder_nomig_admix_late",
+         nm! "portik_models_2d.founder_nomig_admix_two_epoch", nm! "DemogSelModels.IM_sel",
+         nm! "DemogSelModels.IM_sel_single_gamma", nm! "DemogSelModels.growth_sel"] :=
+  C15Facts.ref_inside_models
+
+/-- **the library models are independent of the reference size**: a library model fixes the ancestral size and θ0 to the
+    literal 1.  For every model of the table outside `C15_program_scale_exceptions`, its run `t` with the reference size and
+    the reference θ made explicit (`refExplicit`: `nu=1 ↦ Nref·1`, `nu1=1-s ↦ Nref·(1-s)`, `theta0=1 ↦ theta_ref·1`) is
+    strictly well-united, means what the model means at `Nref = theta_ref = 1`, and therefore — in every scale-lawful
+    interpretation — the model equals the reference-explicit program at the rescaled parameters, reference size `sc Size 1`
+    and reference θ `sc Theta 1` -/
+theorem C15_program_scale_library (m : Model) (_hm : m ∈ table) (hx : modelRefExplicitOK table sigs m = true)
+    {I : Interp} (A : UnitAction I) (hP : PrimScaleLawful I A false) (hmul : ∀ x, I.mul (I.lit 1 1) x = x)
+    (ρ ρ' : Name → I.S) (hρ : ∀ n u, paramUnit n = some u → ρ' n = A.sc u (ρ n))
+    (hN : ρ (nm! "Nref") = I.lit 1 1) (hθ : ρ (nm! "theta_ref") = I.lit 1 1) :
+    ∃ t, symbolicRun table sigs m.name (m.paramNames.map .param) = some t ∧ unitsTr false (refExplicit t) = true ∧
+      sem I ρ table sigs m.name (m.paramNames.map .param) = runTr I ρ' (refExplicit t) := by
+  unfold modelRefExplicitOK at hx
+  cases hs : symbolicRun table sigs m.name (m.paramNames.map .param) with
+  | none => rw [hs] at hx; cases hx
+  | some t =>
+      rw [hs] at hx
+      refine ⟨t, rfl, hx, ?_⟩
+      unfold sem
+      rw [hs]
+      show runTr I ρ t = _
+      rw [← runTr_refExplicit hmul hN hθ t]
+      exact (runTr_scale A hP (r := false) (fun n u hu => by rw [U.ref_false]; exact hρ n u hu) (refExplicit t) hx).symm
+
+/-- the hypotheses are satisfiable together (rationals, the C03 rescaling by 3, primitives that ignore their arguments),
+    and `modelRefExplicitOK` holds for a model with a literal size and a model with a fraction -/
+example : PrimScaleLawful (ratInterp Unit Unit (fun _ _ => some ()) (fun _ _ _ => some ()) (fun _ _ _ => some ()) (fun _ _ => 1) (fun _ x => x))
+    (ratAction Unit Unit _ _ _ _ _ (c03 3 (by norm_num))) false :=
+  ⟨fun _ _ _ _ => rfl, fun _ _ _ _ _ => rfl, fun _ _ _ _ _ => rfl⟩
+
+example : (findModel table (nm! "Demographics2D.bottlegrowth_split_mig")).map (modelRefExplicitOK table sigs) = some true
+    ∧ (findModel table (nm! "portik_models_2d.vic_anc_asym_mig")).map (modelRefExplicitOK table sigs) = some true := by
+  decide +kernel
 
 /-! ## non-vacuity: concrete interpretations satisfying the hypotheses -/
 
